@@ -31,6 +31,7 @@ type Engine struct {
 	curRoot  *ssa.Function
 	usedSpecs map[string]*SpecFunc
 	curInstr  ssa.Instruction
+	fuel      int
 }
 
 type deferred struct {
